@@ -575,6 +575,29 @@ fn gen_batch(rng: &mut Rng, pool: u8, g: &Graph, max: usize) -> Vec<Rec> {
     out
 }
 
+/// A whole graph in one batch: 3..pool nodes, each edge drawn independently; `cyclic` allows back
+/// edges (two cycles sharing a node, long cycles with tails, self loops inside larger components)
+fn gen_dense_batch(rng: &mut Rng, pool: u8, cyclic: bool) -> Vec<Rec> {
+    let n = rng.range(3, pool as usize) as u8;
+    let density = *rng.pick(&[12u32, 20, 30, 45]);
+    let mut out = vec![];
+    for i in 0..n {
+        let mut parents = vec![];
+        for j in 0..pool {
+            if j == i && !(cyclic && rng.pct(3)) {
+                continue;
+            }
+            let forward = j > i;
+            if (forward || cyclic && rng.pct(35)) && rng.pct(density) {
+                parents.push(j);
+            }
+        }
+        out.push(Rec { id: i, parents });
+    }
+    rng.shuffle(&mut out);
+    out
+}
+
 fn closure_batch(rng: &mut Rng, pool: u8, shape: usize) -> Vec<RecTc> {
     // draw a random graph, close it, then damage it according to `shape`
     let n = rng.range(2, pool as usize);
@@ -643,7 +666,7 @@ impl World for Hierarchy {
         // the generator tracks an approximate model only to bias choices (cycles, alternative paths)
         let mut g = Graph::new();
         if rng.pct(70) {
-            let b = gen_batch(&mut rng, pool, &g, 5);
+            let b = if rng.pct(50) { let c = rng.pct(25); gen_dense_batch(&mut rng, pool, c) } else { gen_batch(&mut rng, pool, &g, 5) };
             let (m, _) = model_add(&Graph::new(), &b);
             if !has_cycle(&m) {
                 g = m;
@@ -653,7 +676,7 @@ impl World for Hierarchy {
         while ops.len() < nops {
             match rng.weighted(&w) {
                 0 => {
-                    let b = gen_batch(&mut rng, pool, &g, 5);
+                    let b = if rng.pct(45) { let c = rng.pct(35); gen_dense_batch(&mut rng, pool, c) } else { gen_batch(&mut rng, pool, &g, 5) };
                     let (m, _) = model_add(&Graph::new(), &b);
                     if !has_cycle(&m) {
                         g = m;
@@ -714,7 +737,7 @@ impl World for Hierarchy {
                     ops.push(Op::Remove { ids });
                 }
                 4 => {
-                    let b = gen_batch(&mut rng, pool, &g, 5);
+                    let b = if rng.pct(45) { let c = rng.pct(35); gen_dense_batch(&mut rng, pool, c) } else { gen_batch(&mut rng, pool, &g, 5) };
                     let (m, _) = model_add(&Graph::new(), &b);
                     if !has_cycle(&m) {
                         g = m;
@@ -740,7 +763,7 @@ impl World for Hierarchy {
                     ops.push(Op::AddJson { batch: b });
                 }
                 8 => {
-                    let b = gen_batch(&mut rng, pool, &g, 5);
+                    let b = if rng.pct(45) { let c = rng.pct(35); gen_dense_batch(&mut rng, pool, c) } else { gen_batch(&mut rng, pool, &g, 5) };
                     let (m, _) = model_add(&Graph::new(), &b);
                     if !has_cycle(&m) {
                         g = m;
